@@ -8,25 +8,25 @@ HERE = os.path.dirname(os.path.dirname(os.path.abspath(__file__)))
 # id -> (engine, level, technique, level text, level note, design section)
 CHECKS = {
  "C01": ("dbsim", "exploration", "deterministic simulation (seeded sequential histories, background work at operation boundaries) against an executable reference model",
-         "Seeded sequential histories of Set/SetReader/Create/Get/GetReader/GetKeys/Delete over 2-5 keys (ASCII, multi-byte, long; contents around the 2048-byte chunk and 32 KiB buffer boundaries) run on a whole inline database inside the simulator; after every operation the result (bytes, error class) and a full read-back of all keys is compared with a ~200-line reference model. Exploration: a clean batch is evidence over the sampled histories, not a proof.",
+         "Seeded sequential histories of Set/SetReader/Create/Get/GetReader/GetKeys/Delete over 2-5 keys (ASCII, multi-byte, long; contents around the 2048-byte chunk and 32 KiB buffer boundaries) run on a whole inline database inside the simulator; after every operation the result (bytes, error class) and a full read-back of all keys is compared with a ~200-line reference model. Fault kinds on top: nearly full disks, the caller's context (per-call contexts cancelled on return, calls with an already cancelled context), content readers that are read only several operations after they were handed out. Exploration: a clean batch is evidence over the sampled histories, not a proof.",
          "real: store/transaction/cleaner/dir use cases, version lists, Badger, content files, worker pool; simulated: scheduler, clock, disk-usage report, random ids. Trusted: Badger, Go runtime, kernel FS.", "4/C01"),
  "C02": ("dbsim", "exploration", "deterministic simulation of sequential multi-transaction histories against a reference model of the four isolation levels, GC injected at every boundary",
-         "One driver interleaves up to 6 open transactions of all four levels plus autocommit calls; after every step every open transaction and the autocommit caller read every key and GetKeys, each answer compared with the reference model; the collector (direct call and simulated GC timer) fires at seeded operation boundaries; a deep-chain profile builds hundreds of versions per key.",
+         "One driver interleaves up to 6 open transactions of all four levels plus autocommit calls; after every step every open transaction and the autocommit caller read every key and GetKeys, each answer compared with the reference model; the collector (direct call and simulated GC timer) fires at seeded operation boundaries; a deep-chain profile builds hundreds of versions per key; per-call and dead caller contexts and held-open readers as in C01.",
          "as C01; the one documented relaxation: at ReadUncommitted a value committed after a younger uncommitted write may or may not count as more recent.", "4/C02"),
  "C03": ("dbsim", "exploration", "deterministic simulation with injected Badger update failures; reference model for commit atomicity and the write-write conflict rule",
-         "C02-style histories biased to overlapping write sets, several writes per key, deletes and autocommit writes between Begin and Commit; error class of every Commit/Rollback and an autocommit read-back of all keys after each are compared with the model (serialization error iff a written key has a newer committed version; never at RU/RC); a separate fault configuration makes the commit's Badger update fail before applying.",
+         "C02-style histories biased to overlapping write sets, several writes per key, deletes and autocommit writes between Begin and Commit; error class of every Commit/Rollback and an autocommit read-back of all keys after each are compared with the model (serialization error iff a written key has a newer committed version; never at RU/RC); a separate fault configuration makes the Badger update of a commit (or write) fail, either before it applies anything or at its commit step after its function has run.",
          "as C01; Badger's own transaction atomicity is trusted.", "4/C03"),
  "C04": ("crashsim", "fault_enumeration", "crash-point enumeration: a child process runs a seeded workload under the simulator and SIGKILLs itself at the n-th persistent mutation, for every n; a fresh process recovers and is compared with the acknowledged-prefix model",
-         "For each sampled workload (3-10 autocommit/transactional operations) every persistent-mutation point (file create/write/close/remove, mkdir, Badger update; optionally a torn final write) is used as a kill point of a real child process; a verifier process reopens the directory twice and compares with the model of acknowledged operations plus an atomic subset of in-flight ones; second-level crashes during recovery are enumerated too. A quarter of the workloads have two concurrent clients (a crash-free screening of 24 seeded schedules keeps the one with most overlapping same-key writes; every key is read back at quiescence before a last write), judged by a linearizability check across the crash; one workload in sixteen is a single commit of 1001-2500 keys with the crash points of its tail.",
+         "For each sampled workload (3-10 autocommit/transactional operations) every persistent-mutation point (file create/write/close/remove, mkdir, Badger update; optionally a torn final write) is used as a kill point of a real child process; a verifier process reopens the directory twice and compares with the model of acknowledged operations plus an atomic subset of in-flight ones; second-level crashes during recovery are enumerated too. A quarter of the workloads have two concurrent clients (a crash-free screening of 24 seeded schedules keeps the one with most overlapping same-key writes; every key is read back at quiescence before a last write), judged by a linearizability check across the crash; one workload in sixteen is a single commit of 1001-2500 keys with the crash points of its tail, another one in sixteen a commit larger than Badger accepts in one transaction (it must succeed or fail as a whole at every crash point). The instant right after every acknowledgement is a crash point as well.",
          "crash = process death (SIGKILL): everything handed to a completed system call survives; power loss is out of scope (fs_db never fsyncs content). Badger's recovery is trusted.", "4/C04"),
  "C05": ("dbsim+crashsim", "exploration", "deterministic simulation of histories with Close/Open at seeded positions and several databases per process; process-boundary segments run by fresh child processes",
-         "Histories as C01-C03 with Close/Open inserted, transactions left open across Close, up to 3 database directories opened in one process in any order (sharing the process-global sequence counter), the same histories cut into segments executed by fresh processes, and databases opened while a second client writes to another open one under a seeded concurrent schedule; the reference model is carried across reopen and a final fresh-process open checks that later writes keep winning.",
+         "Histories as C01-C03 with Close/Open inserted, transactions left open across Close, up to 3 database directories opened in one process in any order (sharing the process-global sequence counter), the same histories cut into segments executed by fresh processes, and databases opened while a second client writes to another open one under a seeded concurrent schedule; the reference model is carried across reopen and a final fresh-process open checks that later writes keep winning; bulk cases hold hundreds to 2400 records across reopenings.",
          "as C01.", "4/C05"),
  "C06": ("dbsim", "exploration", "deterministic simulation: seeded schedules (uniform with stickiness up to 0.99, PCT, one stalled client) of 2-4 concurrent clients plus GC/cleaner actors; linearizability of the recorded call/return history checked with porcupine against the reference model; deadlock and panic detectors",
-         "2-4 clients issue autocommit operations and RU/RC transactions on 2-3 shared keys while the GC timer and cleaner jobs run; every decision point (lock acquire and release, atomic, channel, timer, IO) is a scheduler choice; the history (stamped with global event numbers) is checked for a linearization with porcupine, plus direct lost/resurrected/missing-key rules, deadlock and panic detection.",
+         "2-4 clients issue autocommit operations and RU/RC transactions on 2-3 shared keys while the GC timer and cleaner jobs run; every decision point (lock acquire and release, atomic, channel, timer, IO) is a scheduler choice; the history (stamped with global event numbers) is checked for a linearization with porcupine, plus direct lost/resurrected/missing-key rules, deadlock and panic detection; a third of the programs give every call its own context, cancelled on return; some programs start on a database that has never published anything.",
          "interleavings at the granularity of synchronisation/atomic/IO operations; C15 checks data-race freedom separately. Badger, Go runtime trusted.", "4/C06"),
  "C07": ("dbsim", "exploration", "deterministic simulation of concurrently committing snapshot transactions under seeded schedules; history rule: overlapping snapshot writers of one key => at most one commit succeeds",
-         "2-3 RR/SER transactions begun before the concurrent phase with intersecting write sets plus autocommit writers commit concurrently under seeded schedules; checked: at most one winner among overlapping writers of a key, losers fail with ErrTxSerialization and leave nothing visible, winners' values are in place at quiescence.",
+         "2-3 RR/SER transactions begun before the concurrent phase with intersecting write sets plus autocommit writers commit concurrently under seeded schedules; checked: at most one winner among overlapping writers of a key, losers fail with ErrTxSerialization and leave nothing visible, winners' values are in place at quiescence; one program in seven starts on an empty database.",
          "as C06.", "4/C07"),
  "C08": ("dbsim", "exploration", "deterministic simulation of snapshot readers racing with multi-key committers, autocommit writers and GC; interval-based snapshot-validity, atomic-visibility and repeatable-read rules over the recorded history",
          "Snapshot readers Begin during the concurrent phase and read all keys twice while committers commit unique values to two or more keys, an autocommit writer writes and the GC timer fires; the oracle uses only call/return stamps, so it is sound for any correct implementation.",
@@ -35,28 +35,28 @@ CHECKS = {
          "C02 histories in which the collector runs (direct call and GC timer, several times in a row, right after Begin, with snapshot transactions of different ages open) followed by quiescence so that physical deletions have happened; all actors' reads immediately before and after must be identical and equal to the model, and the remaining history must still match. A quarter of the cases are concurrent: a collector actor overlapping snapshot readers and committers (C08's interval rules) or autocommit/RU/RC readers of a key under overwrite (C06's rules).",
          "as C01.", "4/C09"),
  "C10": ("dbsim+simgrpc", "fault_enumeration", "fault injection under deterministic simulation: ENOSPC positions (partial and all-or-nothing) on each subset of roots, failing/short source readers, context cancellation mid-upload, gRPC link cuts; oracle old-value-or-complete-new-value",
-         "For sampled content lengths every fault position from the boundary set {0,1,chunk-1,chunk,chunk+1,L-1} plus seeded offsets is injected: simulated-disk ENOSPC on subsets of roots (honest and over-reporting disks), source reader errors and odd read shapes, cancellation at a source offset and link cuts through the in-process gRPC transport; an error must leave the previous value, nil must mean the complete value, and a root that really has room and reported more free space than the failing ones must be used.",
+         "For sampled content lengths every fault position from the boundary set {0,1,chunk-1,chunk,chunk+1,L-1} plus seeded offsets is injected: simulated-disk ENOSPC on subsets of roots (honest and over-reporting disks), source reader errors and odd read shapes, cancellation at a source offset or between the Write calls of a created file, and link cuts through the in-process gRPC transport; an error must leave the previous value, nil must mean the complete value, and a root that really has room and reported more free space than the failing ones must be used.",
          "gRPC transport is an in-process stub whose semantics are pinned by a conformance probe against real grpc-go; the real grpc-go runtime is exercised only by the fault-free C11 tier.", "4/C10"),
  "C11": ("dbsim+simgrpc+grpcreal", "exploration", "differential deterministic simulation: the same seeded sequential history through the inline client, the external client over the in-process gRPC transport, and the external client over real loopback gRPC; pairwise equal values and error classes, and equal to the reference model",
-         "Sequential histories of C01-C03/C13 (content sizes across the 2048-byte chunk boundary, all four levels) are executed through the three client stacks from one seed; a second generator pushes every exported sentinel under seeded wrapping through the real adapters.",
+         "Sequential histories of C01-C03/C13 (content sizes across the 2048-byte chunk boundary, all four levels) are executed through the three client stacks from one seed; a second generator pushes every exported sentinel under seeded wrapping through the real adapters; one case in eight adds 34-45 keys of about 1000 bytes (key listing and stream headers far beyond one chunk); calls with dead and per-call contexts as in C01.",
          "grpcreal runs use real grpc-go with uncontrolled scheduling but sequential fault-free histories (outcomes are a function of the seed).", "4/C11"),
  "C12": ("asyncsim+dbsim", "exploration", "deterministic simulation of the writer against the storing goroutine: every synchronisation step of Write/Read/Close is a seeded scheduler choice; oracle Close returns and content = concatenation",
-         "The read-writer behind Create runs alone (asyncsim) with a storing goroutine that drains it like io.Copy with seeded buffer sizes, and end to end through db.Create on a whole inline database (dbsim); write sizes from {0,1,7,511..513,32767..32769}; seeded uniform and PCT schedules with decision points before lock acquire and release, Cond.Wait entry, atomics; storing-side failures injected. Close must return (deadlock detector) and nil must mean Get = concatenation of all writes.",
+         "The read-writer behind Create runs alone (asyncsim) with a storing goroutine that drains it like io.Copy with seeded buffer sizes, and end to end through db.Create on a whole inline database (dbsim); write sizes from {0,1,7,511..513,32767..32769}; seeded uniform and PCT schedules with decision points before lock acquire and release, Cond.Wait entry, atomics; storing-side failures injected; one db case in eight hands 0.6-6 MiB to Write while the storing side is far behind and mostly about to fail. Close must return (deadlock detector) and nil must mean Get = concatenation of all writes.",
          "interleavings at the granularity of sync/atomic operations.", "4/C12"),
  "C13": ("dbsim+simgrpc", "exploration", "deterministic simulation of histories that keep using ended transaction handles while observers of all levels are open; reference model ErrTxNotFound / no effect; reopen",
-         "After each Commit (success or serialization failure) and Rollback the handle keeps being used for every operation in seeded order while RU/RC/RR observers read everything; then close and reopen. Every late call except Rollback must fail with ErrTxNotFound and no observer's read-back may change.",
+         "After each Commit (success or serialization failure) and Rollback the handle keeps being used for every operation in seeded order while RU/RC/RR observers read everything; then close and reopen; requests naming unknown transactions (well-formed and malformed ids) through the raw gRPC stub; calls made with an already cancelled context (refused => no effect). Every late call except Rollback must fail with ErrTxNotFound and no observer's read-back may change.",
          "as C01.", "4/C13"),
  "C14": ("dbsim", "exploration", "deterministic simulation of fault-free histories run to exact quiescence (no runnable goroutine, GC fired), then directory walk vs GetKeys/Get",
-         "After any mix of overwrites, deletes, in-transaction overwrites, commits, failed commits and rollbacks all transactions are ended, the world is run to exact quiescence, the GC timer fires once, quiescence again (variant: Close with jobs queued, reopen); the regular files under all roots must be in bijection with the readable keys, byte-equal.",
+         "After any mix of overwrites, deletes, in-transaction overwrites, commits, failed commits and rollbacks all transactions are ended, the world is run to exact quiescence, the GC timer fires once, quiescence again (variants: Close with jobs queued, reopen; per-call caller contexts cancelled on return; the external client over the simulated transport, whose handler contexts end with each call); the regular files under all roots must be in bijection with the readable keys, byte-equal.",
          "quiescence is exact because every goroutine of the database is managed by the simulator.", "4/C14"),
  "C15": ("racesim", "exploration", "deterministic simulation under the Go race detector: seeded serialised schedules whose hand-off (raw pipe reads in norace code) is invisible to the detector, so the happens-before graph is the program's own",
          "Concurrent client programs (first use right after Open, C06-C08 style mixes, Create writer vs storing goroutine, pool programs) run built with -race; the scheduler parks goroutines on pipes through raw system calls, shims delegate to the real sync primitives; a report counts iff one of its stacks is in fs_db code outside the harness.",
          "the detector judges only accesses that occur in the explored executions.", "4/C15"),
  "C16": ("poolsim", "exploration", "deterministic simulation of the real worker pool with a simulated clock: seeded schedules over every lock/atomic/channel/timer step of senders, flusher and workers; oracle exactly-once at quiescence, Stop ordering, no panic/deadlock",
-         "2-4 concurrent senders issue quick and gate-blocked jobs against 1-3 workers, the Send time-out is a scheduler-fired timer, Stop/Run cycles, Stop racing with senders, lifecycle calls in arbitrary sequential order and racing; at quiescence (all gates open, all timers fired, no further Send) every accepted job has run exactly once; Stop returns only after started jobs finished; deadlock, panic and runtime-fatal misuse detectors.",
-         "jobs honour context cancellation; Go channels/contexts trusted.", "4/C16"),
+         "2-4 concurrent senders issue quick, gate-blocked and cancellation-ignoring jobs against 1-3 workers (gates open once every Send of the phase has returned: a Send must never need a job or a Stop to finish), the Send time-out is a scheduler-fired timer, Stop/Run cycles, Stop racing with senders, lifecycle calls in arbitrary sequential order and racing; at quiescence (all gates open, all timers fired, no further Send) every accepted job has run exactly once; Stop returns only after started jobs finished; deadlock, panic and runtime-fatal misuse detectors.",
+         "Go channels/contexts trusted.", "4/C16"),
  "C17": ("dbsim", "exploration", "deterministic simulation of long sequential histories with the directory limit at its clamp, reopenings and collections; tree walk after every step",
-         "150-600 writes interleaved with deletes, GC and reopenings with MaxDirCount at the clamp (config values below it are generated too) and 1-3 roots; after every step a walk checks path shape root/<uuid>/<uuid>, a directory per root, per-directory count <= limit, and reuse of directories that regained room.",
+         "150-600 writes interleaved with deletes, GC and reopenings with MaxDirCount at the clamp (config values below it are generated too) and 1-3 roots; after every step a walk checks path shape root/<uuid>/<uuid>, a directory per root, per-directory count <= limit, and reuse of directories that regained room; directory-creation failures (ENOSPC) are armed at seeded operations: the write that hits one fails, the following ones must succeed.",
          "as C01.", "4/C17"),
  "C19": ("crashsim segments", "exploration", "restart simulation: the current tree opens a database directory written by the pinned revision, restart round trips with arbitrary keys and sequence bases, stored-record corruption fault at load",
          "The persisted-state face of the property: a fixture directory written by the pinned revision is opened by the current tree and must show exactly what its writer acknowledged; restart round trips across process boundaries with arbitrary key bytes and sequence counters near 1, 2^32, 2^63; a stored record truncated or garbled on disk must make Open fail without panic when shorter than the header. The pure 'for every byte string' quantifier is not claimed.",
